@@ -264,6 +264,53 @@ theorem c17_order_independent (o : Oracles) (gs1 gs2 : List SGroup)
     simp
   rw [this]
 
+theorem lastVal_eq_getLast {α : Type} (sel : SGroup → Option α) (gs : List SGroup) :
+    lastVal sel gs = (gs.filterMap sel).getLast? := by
+  induction gs with
+  | nil => simp [lastVal]
+  | cons g gs ih =>
+    simp only [lastVal, ih, List.filterMap_cons]
+    cases hs : sel g with
+    | none => cases (List.filterMap sel gs).getLast? <;> simp
+    | some b =>
+      simp only
+      cases hl : List.filterMap sel gs with
+      | nil => simp
+      | cons x xs =>
+        have : (x :: xs).getLast? = some ((x :: xs).getLast (by simp)) := List.getLast?_eq_some_getLast (by simp)
+        rw [List.getLast?_cons_cons, this]
+
+theorem perm_short_eq {α : Type} {l1 l2 : List α} (hp : l1.Perm l2) (h : l1.length ≤ 1) : l1 = l2 := by
+  match l1, h with
+  | [], _ => exact (List.nil_perm.mp hp).symm
+  | [a], _ => exact (List.singleton_perm.mp hp)
+
+theorem lastVal_perm {α : Type} (sel : SGroup → Option α) {gs1 gs2 : List SGroup} (hp : gs1.Perm gs2)
+    (h : (gs1.filterMap sel).length ≤ 1) : lastVal sel gs1 = lastVal sel gs2 := by
+  rw [lastVal_eq_getLast, lastVal_eq_getLast, perm_short_eq (hp.filterMap sel) h]
+
+/-- **permutation invariance** (order independence in its plainest form): a vector of valid groups in which
+every setting is named at most once gives the same configuration in every order -/
+theorem c17_permutation_invariant (o : Oracles) (gs1 gs2 : List SGroup) (hp : gs1.Perm gs2)
+    (h1 : ∀ g ∈ gs1, g.valid o = true)
+    (hip : (gs1.filterMap selIp).length ≤ 1) (hport : (gs1.filterMap selPort).length ≤ 1)
+    (hdir : (gs1.filterMap selDir).length ≤ 1) (hrd : (gs1.filterMap selRd).length ≤ 1)
+    (hsd : (gs1.filterMap selSd).length ≤ 1) (hsi : (gs1.filterMap selSingle).length ≤ 1)
+    (hro : (gs1.filterMap selRo).length ≤ 1) (hdup : (gs1.filterMap selDup).length ≤ 1)
+    (how : (gs1.filterMap selOw).length ≤ 1) (hk : (gs1.filterMap selKeep).length ≤ 1) (prog : Bytes) :
+    serverConfig o (prog :: gs1.flatMap SGroup.tokens) = serverConfig o (prog :: gs2.flatMap SGroup.tokens) :=
+  c17_order_independent o gs1 gs2 h1 (fun g hg => h1 g (hp.mem_iff.mpr hg))
+    (lastVal_perm _ hp hip) (lastVal_perm _ hp hport) (lastVal_perm _ hp hdir) (lastVal_perm _ hp hrd)
+    (lastVal_perm _ hp hsd) (lastVal_perm _ hp hsi) (lastVal_perm _ hp hro) (lastVal_perm _ hp hdup)
+    (lastVal_perm _ hp how) (lastVal_perm _ hp hk) prog
+
+/-! non-vacuity: a two-flag vector meets the premises of `c17_permutation_invariant` in both orders -/
+example : [SGroup.single false, SGroup.ro true].Perm [SGroup.ro true, SGroup.single false] ∧
+    ([SGroup.single false, SGroup.ro true].filterMap selSingle).length ≤ 1 ∧
+    ([SGroup.single false, SGroup.ro true].filterMap selRo).length ≤ 1 ∧
+    ([SGroup.single false, SGroup.ro true].filterMap selPort).length ≤ 1 :=
+  ⟨List.Perm.swap _ _ _, by decide, by decide, by decide⟩
+
 /-- **documented defaults**: with no flags the configuration is 127.0.0.1 (`ip = none`), port 69, the
 current directory, writable, multi-port, no duplicates, no overwrite, clean-on-error -/
 theorem c17_defaults (o : Oracles) (prog : Bytes) :
@@ -508,6 +555,41 @@ theorem c17_client_order_independent (o : Oracles) (gs1 gs2 : List CGroup)
       hip, hport, hblk, hwin, htmo, hrd, hmode, hk, hfile]
     simp
   rw [this]
+
+theorem lastValC_eq_getLast {α : Type} (sel : CGroup → Option α) (gs : List CGroup) :
+    lastValC sel gs = (gs.filterMap sel).getLast? := by
+  induction gs with
+  | nil => simp [lastValC]
+  | cons g gs ih =>
+    simp only [lastValC, ih, List.filterMap_cons]
+    cases hs : sel g with
+    | none => cases (List.filterMap sel gs).getLast? <;> simp
+    | some b =>
+      simp only
+      cases hl : List.filterMap sel gs with
+      | nil => simp
+      | cons x xs =>
+        have : (x :: xs).getLast? = some ((x :: xs).getLast (by simp)) := List.getLast?_eq_some_getLast (by simp)
+        rw [List.getLast?_cons_cons, this]
+
+theorem lastValC_perm {α : Type} (sel : CGroup → Option α) {gs1 gs2 : List CGroup} (hp : gs1.Perm gs2)
+    (h : (gs1.filterMap sel).length ≤ 1) : lastValC sel gs1 = lastValC sel gs2 := by
+  rw [lastValC_eq_getLast, lastValC_eq_getLast, perm_short_eq (hp.filterMap sel) h]
+
+/-- **client: permutation invariance** — a vector of valid client groups in which every setting is named at
+most once (one mode flag, one file name) gives the same configuration in every order -/
+theorem c17_client_permutation_invariant (o : Oracles) (gs1 gs2 : List CGroup) (hp : gs1.Perm gs2)
+    (h1 : ∀ g ∈ gs1, g.valid o = true)
+    (hip : (gs1.filterMap cselIp).length ≤ 1) (hport : (gs1.filterMap cselPort).length ≤ 1)
+    (hblk : (gs1.filterMap cselBlk).length ≤ 1) (hwin : (gs1.filterMap cselWin).length ≤ 1)
+    (htmo : (gs1.filterMap cselTmo).length ≤ 1) (hrd : (gs1.filterMap cselRd).length ≤ 1)
+    (hmode : (gs1.filterMap cselMode).length ≤ 1) (hk : (gs1.filterMap cselKeep).length ≤ 1)
+    (hfile : (gs1.filterMap cselFile).length ≤ 1) :
+    clientConfig o (gs1.flatMap CGroup.tokens) = clientConfig o (gs2.flatMap CGroup.tokens) :=
+  c17_client_order_independent o gs1 gs2 h1 (fun g hg => h1 g (hp.mem_iff.mpr hg))
+    (lastValC_perm _ hp hip) (lastValC_perm _ hp hport) (lastValC_perm _ hp hblk) (lastValC_perm _ hp hwin)
+    (lastValC_perm _ hp htmo) (lastValC_perm _ hp hrd) (lastValC_perm _ hp hmode) (lastValC_perm _ hp hk)
+    (lastValC_perm _ hp hfile)
 
 /-! non-vacuity: `-u -b 57 file -d` against `file -d -b 57` (mode: the last of the two mode flags; same file; same blksize) -/
 example : clientConfig { ipOk := fun _ => true, pathExists := fun _ => true }
